@@ -2592,3 +2592,392 @@ def boundary_container_cases():
         for k in sorted(keys_t, key=lambda x: x.value):
             for v, pad in ((1, 1), (1, 4), (2, 1), (2, 4)):
                 yield ("%s in block %s v%d pad%d" % (label, k.value.decode("ascii"), v, pad), T.TaggedBlock(b"8BIM", k, obj), (v, pad), (v, pad), obj)
+
+
+# ----------------------------------------------------------------------------- Stage 3 (1): adjustments (Psd/Adjust.v)
+# adj desc: ["struct", kind, vals] kind in brit blnc expA hue selc phfl | ["mixr", vals, tail] |
+#   ["levl", version, [[5 vals]...], extra|None] | ["curv", is_map, version, count_map, [flat curve / map ...], extra|None]
+#   extra = [marker version, [[channel id, as_map, flat vals], ...]] |
+#   ["grdm", [version, reversed, dithered], method, name units, [[7 vals]...], [[3 vals]...], [17 vals]]
+ASTRUCT = {"brit": ("SBrit", 1), "blnc": ("SBlnc", 2), "expA": ("SExpA", 3), "hue": ("SHue", 4), "selc": ("SSelc", 5), "phfl": ("SPhfl", 6)}
+
+
+def f32_bits(x):
+    return struct.unpack(">I", struct.pack(">f", x))[0]
+
+
+def bits_f32(q):
+    return struct.unpack(">f", struct.pack(">I", q))[0]
+
+
+def coq_rows(rows):
+    return coq_list(lambda r: coq_list(z, r), rows)
+
+
+def coq_adj(a):
+    t = a[0]
+    B = lambda b: "true" if b else "false"
+    if t == "struct":
+        return "(AStruct %s %s)" % (ASTRUCT[a[1]][0], coq_list(z, a[2]))
+    if t == "mixr":
+        return "(AMixer %s %s)" % (coq_list(z, a[1]), coq_bytes(a[2]))
+    if t == "levl":
+        return "(ALevels %s %s %s)" % (z(a[1]), coq_rows(a[2]), coq_opt(z, a[3]))
+    if t == "curv":
+        ex = coq_opt(lambda e: "(%s, %s)" % (z(e[0]), coq_list(lambda it: "(%s, %s, %s)" % (z(it[0]), B(it[1]), coq_list(z, it[2])), e[1])), a[5])
+        return "(ACurves (mkCurves %s %s %s %s %s))" % (B(a[1]), z(a[2]), z(a[3]), coq_rows(a[4]), ex)
+    if t == "grdm":
+        return "(AGradient (mkGrad %s %s %s %s %s %s))" % (coq_list(z, a[1]), z(a[2]), coq_list(z, a[3]), coq_rows(a[4]), coq_rows(a[5]),
+                                                          coq_list(z, a[6]))
+    raise KeyError(t)
+
+
+def c_adj_d(a):
+    t = a[0]
+    cl = lambda l: c_list(lambda x: [int(x)], list(l))
+    rows = lambda rs: c_list(cl, list(rs))
+    if t == "struct":
+        return [1, ASTRUCT[a[1]][1]] + cl(a[2])
+    if t == "mixr":
+        return [2] + cl(a[1]) + c_bytes(a[2])
+    if t == "levl":
+        return [3, a[1]] + rows(a[2]) + c_opt(lambda x: [x], a[3])
+    if t == "curv":
+        return [4, int(a[1]), a[2], a[3]] + rows(a[4]) + \
+            c_opt(lambda e: [e[0]] + c_list(lambda it: [it[0], int(it[1])] + cl(it[2]), e[1]), a[5])
+    if t == "grdm":
+        return [5] + cl(a[1]) + [a[2]] + cl(a[3]) + rows(a[4]) + rows(a[5]) + cl(a[6])
+    raise KeyError(t)
+
+
+def flat_pts(points):
+    return [v for p in points for v in p]
+
+
+def obj_adj(a):
+    from psd_tools.psd import adjustments as A
+
+    t = a[0]
+    if t == "struct":
+        k, v = a[1], a[2]
+        if k == "brit":
+            return A.BrightnessContrast(*v)
+        if k == "blnc":
+            return A.ColorBalance(tuple(v[0:3]), tuple(v[3:6]), tuple(v[6:9]), v[9])
+        if k == "expA":
+            return A.Exposure(v[0], bits_f32(v[1]), bits_f32(v[2]), bits_f32(v[3]))
+        if k == "hue":
+            items = [[tuple(v[8 + 7 * i:12 + 7 * i]), tuple(v[12 + 7 * i:15 + 7 * i])] for i in range(6)]
+            return A.HueSaturation(v[0], v[1], tuple(v[2:5]), tuple(v[5:8]), items)
+        if k == "selc":
+            return A.SelectiveColor(v[0], v[1], [tuple(v[2 + 4 * i:6 + 4 * i]) for i in range(10)])
+        if k == "phfl":
+            if v[0] == 3:
+                return A.PhotoFilter(3, tuple(v[1:4]), None, None, v[4], v[5])
+            return A.PhotoFilter(v[0], None, v[1], tuple(v[2:6]), v[6], v[7])
+    if t == "mixr":
+        return A.ChannelMixer(a[1][0], a[1][1], list(a[1][2:7]), bytes(a[2]))
+    if t == "levl":
+        return A.Levels(items=[A.LevelRecord(*r) for r in a[2]], version=a[1], extra_version=a[3])
+    if t == "curv":
+        pair = lambda c: [tuple(c[i:i + 2]) for i in range(0, len(c), 2)]
+        data = [list(c) for c in a[4]] if a[1] else [pair(c) for c in a[4]]
+        ex = None
+        if a[5] is not None:
+            ex = A.CurvesExtraMarker(version=a[5][0], items=[A.CurvesExtraItem(it[0], list(it[2]) if it[1] else pair(it[2])) for it in a[5][1]])
+        return A.Curves(a[1], a[2], a[3], data, ex)
+    if t == "grdm":
+        h, tl = a[1], a[6]
+        return A.GradientMap(h[0], h[1], h[2], units_to_str(a[3]), cc4(a[2]),
+                             [A.ColorStop(r[0], r[1], r[2], tuple(r[3:7])) for r in a[4]], [A.TransparencyStop(*r) for r in a[5]],
+                             tl[0], tl[1], tl[2], tl[3], tl[4], tl[5], tl[6], tl[7], tl[8], list(tl[9:13]), list(tl[13:17]))
+    raise KeyError(t)
+
+
+def adj_of_obj(o):
+    from psd_tools.psd import adjustments as A
+
+    if isinstance(o, A.BrightnessContrast):
+        return ["struct", "brit", [o.brightness, o.contrast, o.mean, o.lab_only]]
+    if isinstance(o, A.ColorBalance):
+        return ["struct", "blnc", list(o.shadows) + list(o.midtones) + list(o.highlights) + [int(o.luminosity)]]
+    if isinstance(o, A.Exposure):
+        return ["struct", "expA", [o.version, f32_bits(o.exposure), f32_bits(o.offset), f32_bits(o.gamma)]]
+    if isinstance(o, A.HueSaturation):
+        v = [o.version, o.enable] + list(o.colorization) + list(o.master)
+        for it in o.items:
+            v += list(it[0]) + list(it[1])
+        return ["struct", "hue", v]
+    if isinstance(o, A.SelectiveColor):
+        return ["struct", "selc", [o.version, o.method] + [x for p in o.data for x in p]]
+    if isinstance(o, A.PhotoFilter):
+        if o.version == 3:
+            return ["struct", "phfl", [3] + list(o.xyz) + [o.density, int(o.luminosity)]]
+        return ["struct", "phfl", [o.version, o.color_space] + list(o.color_components) + [o.density, int(o.luminosity)]]
+    if isinstance(o, A.ChannelMixer):
+        return ["mixr", [o.version, o.monochrome] + list(o.data), bytes(o.unknown)]
+    if isinstance(o, A.Levels):
+        import attr
+
+        return ["levl", o.version, [list(attr.astuple(r)) for r in o], o.extra_version]
+    if isinstance(o, A.Curves):
+        data = [list(c) for c in o.data] if o.is_map else [flat_pts(c) for c in o.data]
+        ex = None
+        if o.extra is not None:
+            items = []
+            for it in o.extra:
+                am = len(it.points) > 0 and isinstance(it.points[0], int)
+                items.append([it.channel_id, bool(am), list(it.points) if am else flat_pts(it.points)])
+            ex = [o.extra.version, items]
+        return ["curv", bool(o.is_map), o.version, o.count_map, data, ex]
+    if isinstance(o, A.GradientMap):
+        import attr
+
+        tail = [o.expansion, o.interpolation, o.length, o.mode, o.random_seed, o.show_transparency, o.use_vector_color, o.roughness,
+                o.color_model] + list(o.minimum_color) + list(o.maximum_color)
+        return ["grdm", [o.version, o.is_reversed, o.is_dithered], fcc(kb(o.method)), str_to_units(o.name),
+                [[s.location, s.midpoint, s.mode] + list(s.color) for s in o.color_stops],
+                [list(attr.astuple(s)) for s in o.transparency_stops], tail]
+    raise KeyError(type(o))
+
+
+def popcount32(x):
+    return bin(x & 0xFFFFFFFF).count("1")
+
+
+def wf_adj(a):
+    t = a[0]
+    if t == "struct":
+        k, v = a[1], a[2]
+        if k == "hue":
+            return v[0] == 2
+        if k == "phfl":
+            return v[0] in (2, 3)
+        if k == "selc":
+            return v[0] == 1
+        return True
+    if t == "mixr":
+        return a[1][0] == 1
+    if t == "levl":
+        return a[1] == 2 and len(a[2]) >= 29 and (len(a[2]) == 29 if a[3] is None else a[3] == 3)
+    if t == "curv":
+        im, ver, cm, data, ex = a[1:]
+        if ver not in (1, 4) or len(data) != (popcount32(cm) if ver == 1 else cm):
+            return False
+        for c in data:
+            if im:
+                if len(c) != 256:
+                    return False
+            elif len(c) % 2 or not (2 <= len(c) // 2 <= 19):
+                return False
+        if ex is not None:
+            if ver != 1 or ex[0] not in (3, 4):
+                return False
+            for ch, am, vals in ex[1]:
+                if bool(am) != bool(im) or (len(vals) != 256 if am else len(vals) % 2):
+                    return False
+        return True
+    if t == "grdm":
+        ver = a[1][0]
+        methods = [fcc(b"Gcls"), fcc(b"Lnr "), fcc(b"Perc"), fcc(b"Smoo")]
+        return ver in (1, 3) and a[2] in methods and (ver == 3 or a[2] == fcc(b"Gcls")) and a[6][0] == 2 and a[6][2] == 32
+    raise KeyError(t)
+
+
+def g_adj(rng):
+    U = lambda n: g_u(rng, n)
+    S2 = lambda: rng.choice([-32768, -1, 0, 1, 32767, rng.randint(-32768, 32767)])
+    t = rng.choice(["brit", "blnc", "expA", "hue", "selc", "phfl", "phfl", "mixr", "levl", "levl", "curv", "curv", "curv", "grdm", "grdm"])
+    if t == "brit":
+        return ["struct", t, [U(2), U(2), U(2), U(1)]]
+    if t == "blnc":
+        return ["struct", t, [S2() for _ in range(9)] + [rng.choice([0, 1, 255])]]
+    if t == "expA":
+        return ["struct", t, [U(2)] + [f32_bits(rng.choice([0.0, 0.5, -2.0, 1.0, 20.0])) for _ in range(3)]]
+    if t == "hue":
+        return ["struct", t, [2 if rng.random() < 0.9 else rng.choice([1, 3]), U(1)] + [S2() for _ in range(48)]]
+    if t == "selc":
+        return ["struct", t, [1, U(2)] + [S2() for _ in range(40)]]
+    if t == "phfl":
+        if rng.random() < 0.5:
+            return ["struct", t, [3, U(4), U(4), U(4), U(4), U(1)]]
+        return ["struct", t, [2, U(2), U(2), U(2), U(2), U(2), U(4), U(1)]]
+    if t == "mixr":
+        return ["mixr", [1, U(2)] + [S2() for _ in range(5)], g_payload(rng)]
+    if t == "levl":
+        n = rng.choice([29, 29, 30, 31, 60])
+        extra = rng.choice([None, 3, 3])
+        if extra is None and rng.random() < 0.8:
+            n = 29
+        if rng.random() < 0.05:
+            extra = 2                                   # not well-formed: the reader asserts extra version 3
+        return ["levl", 2, [[U(2) for _ in range(5)] for _ in range(n)], extra]
+    if t == "curv":
+        im = rng.random() < 0.3
+        ver = rng.choice([1, 4])
+        n = rng.choice([0, 1, 2, 3])
+        cm = n if ver == 4 else rng.choice([x for x in [0, 1, 2, 3, 5, 7, 9, 0x80000000, 0x80000001, 11, 13, 14] if popcount32(x) == n])
+        npts = lambda: rng.choice([2, 2, 3, 18, 19] if rng.random() < 0.93 else [1, 20, 0])
+        curve = lambda: [rng.randrange(256) for _ in range(256)] if im else [U(2) if rng.random() < 0.2 else rng.randrange(256) for _ in range(2 * npts())]
+        data = [curve() for _ in range(n)]
+        ex = None
+        if (ver == 1 and rng.random() < 0.6) or (ver == 4 and rng.random() < 0.05):
+            k = rng.choice([0, 1, 2])
+            item = lambda: [U(2), im, [rng.randrange(256) for _ in range(256)] if im else [rng.randrange(256) for _ in range(2 * rng.choice([0, 1, 2, 19, 25]))]]
+            ex = [rng.choice([3, 4]), [item() for _ in range(k)]]
+        return ["curv", im, ver, cm, data, ex]
+    ver = rng.choice([1, 3])
+    method = fcc(b"Gcls") if (ver == 1 and rng.random() < 0.9) else fcc(rng.choice([b"Gcls", b"Lnr ", b"Perc", b"Smoo"]))
+    nc, nt = rng.choice([0, 1, 2, 5]), rng.choice([0, 1, 2, 5])
+    tail = [2, U(2), 32, U(2), U(4), U(2), U(2), U(4), U(2)] + [U(2) for _ in range(8)]
+    return ["grdm", [ver, rng.choice([0, 1]), rng.choice([0, 1, 255])], method, g_units16(rng),
+            [[U(4), U(4), U(2), U(2), U(2), U(2), U(2)] for _ in range(nc)], [[U(4), U(4), U(2)] for _ in range(nt)], tail]
+
+
+def run_payload(obj_of, canon_d, desc, wkw, rkw, wf, exc_code):
+    """generic: build, write(**wkw), frombytes(**rkw), compare by canonical form (canon of the object = canon_d(of_obj(obj)))
+    -> (outcome [0, n, dig, 0, dig canon, same?, wf] | [err], info)"""
+    try:
+        o = obj_of(desc)
+    except Exception as e:
+        return None, {"stage": "build", "err": e}
+    f = io.BytesIO()
+    try:
+        n = o.write(f, **wkw)
+    except Exception as e:
+        return [exc_code(e)], {"stage": "write", "err": e}
+    b = f.getvalue()
+    out = [0, n, h63_list(0, list(b))]
+    info = {"stage": None, "obj": o, "bytes": b, "written": n}
+    try:
+        y = type(o).frombytes(b, **rkw)
+        cy = canon_d(y)
+    except Exception as e:
+        info.update(stage="read", err=e)
+        return out + [exc_code(e), int(wf)], info
+    co = canon_d(o)
+    f2 = io.BytesIO()
+    try:
+        y.write(f2, **wkw)
+        same = f2.getvalue() == b
+    except Exception:
+        same = False
+    info.update(reread=y, eq=bool(y == o), same_canon=cy == co, rewrite_same=same)
+    return out + [0, h63_list(0, cy), int(cy == co), int(wf)], info
+
+
+def run_adj(a, pad, exc_code):
+    return run_payload(obj_adj, lambda o: c_adj_d(adj_of_obj(o)), a, {"padding": pad, "version": 1}, {"version": 1}, wf_adj(a), exc_code)
+
+
+# ----------------------------------------------------------------------------- Stage 3 (2): vector paths (Psd/Vector.v)
+# vmask desc: [version, flags, [record...]]; record = ["rec", selector, vals] | ["sub", selector, [op, u1, u2, index, 10 bytes], [[ksel, [6 ints]], ...]]
+KNOT_SEL = [1, 2, 4, 5]
+
+
+def coq_prec(r):
+    if r[0] == "rec":
+        return "(PRec %s %s)" % (z(r[1]), coq_list(z, r[2]))
+    return "(PSub %s %s %s)" % (z(r[1]), coq_list(z, r[2]), coq_list(lambda k: "(%s, %s)" % (z(k[0]), coq_list(z, k[1])), r[3]))
+
+
+def coq_vmask(v):
+    return "(%s, %s, %s)" % (z(v[0]), z(v[1]), coq_list(coq_prec, v[2]))
+
+
+def c_prec_d(r):
+    cl = lambda l: c_list(lambda x: [int(x)], list(l))
+    if r[0] == "rec":
+        return [1, r[1]] + cl(r[2])
+    return [2, r[1]] + cl(r[2]) + c_list(lambda k: [k[0]] + cl(k[1]), r[3])
+
+
+def c_vmask_d(v):
+    return [v[0], v[1]] + c_list(c_prec_d, v[2])
+
+
+def obj_prec(r):
+    from psd_tools.constants import PathResourceID
+    from psd_tools.psd import vector as V
+
+    fx = lambda n: n / 0x01000000
+    knot = lambda sel, vals: V.TYPES[PathResourceID(sel)]((fx(vals[0]), fx(vals[1])), (fx(vals[2]), fx(vals[3])), (fx(vals[4]), fx(vals[5])))
+    if r[0] == "sub":
+        h = r[2]
+        return V.TYPES[PathResourceID(r[1])](items=[knot(k[0], k[1]) for k in r[3]], operation=h[0], unknown1=h[1], unknown2=h[2], index=h[3],
+                                            unknown3=bytes(h[4:14]))
+    sel, vals = r[1], r[2]
+    if sel == 6:
+        return V.PathFillRule()
+    if sel == 8:
+        return V.InitialFillRule(vals[0])
+    if sel == 7:
+        return V.ClipboardRecord(*[fx(x) for x in vals])
+    return knot(sel, vals)
+
+
+def obj_vmask(v):
+    from psd_tools.psd import vector as V
+
+    return V.VectorMaskSetting(v[0], v[1], V.Path([obj_prec(r) for r in v[2]]))
+
+
+def prec_of_obj(o):
+    import attr
+    from psd_tools.psd import vector as V
+
+    E = V.encode_fixed_point
+    sel = int(o.selector)
+    if isinstance(o, V.Subpath):
+        knots = []
+        for k in o:
+            if not isinstance(k, V.Knot):
+                raise KeyError("record inside a subpath that is not a knot")
+            knots.append([int(k.selector), list(E(k.preceding + k.anchor + k.leaving))])
+        return ["sub", sel, [o.operation, o._unknown1, o._unknown2, o.index] + list(o._unknown3), knots]
+    if isinstance(o, V.PathFillRule):
+        return ["rec", sel, []]
+    if isinstance(o, V.InitialFillRule):
+        return ["rec", sel, [o.value]]
+    if isinstance(o, V.ClipboardRecord):
+        return ["rec", sel, list(E(attr.astuple(o)))]
+    if isinstance(o, V.Knot):
+        return ["rec", sel, list(E(o.preceding + o.anchor + o.leaving))]
+    raise KeyError(type(o))
+
+
+def vmask_of_obj(o):
+    return [o.version, o.flags, [prec_of_obj(r) for r in o.path]]
+
+
+def wf_vmask(v):
+    def ok(r):
+        if r[0] == "sub":
+            return r[1] in (0, 3) and all(k[0] in KNOT_SEL for k in r[3])
+        return r[1] in (6, 7, 8, 1, 2, 4, 5)
+
+    return v[0] == 3 and all(ok(r) for r in v[2])
+
+
+def g_vmask(rng):
+    i32 = lambda: rng.choice([-2 ** 31, -1, 0, 1, 2 ** 31 - 1, 1 << 24, 1 << 23, rng.randint(-2 ** 31, 2 ** 31 - 1)])
+    recs = []
+    for _ in range(rng.choice([0, 1, 2, 3, 5])):
+        k = rng.random()
+        if k < 0.15:
+            recs.append(["rec", 6, []])
+        elif k < 0.3:
+            recs.append(["rec", 8, [rng.choice([0, 1, 65535])]])
+        elif k < 0.4:
+            recs.append(["rec", 7, [i32() for _ in range(5)]])
+        elif k < 0.5:
+            recs.append(["rec", rng.choice(KNOT_SEL), [i32() for _ in range(6)]])
+        else:
+            n = rng.choice([0, 1, 2, 3, 7])
+            hdr = [rng.choice([-1, 0, 1, 2, 3, -32768]), g_u(rng, 2), g_u(rng, 4), g_u(rng, 4)] + [rng.randrange(256) for _ in range(10)]
+            recs.append(["sub", rng.choice([0, 3]), hdr, [[rng.choice(KNOT_SEL), [i32() for _ in range(6)]] for _ in range(n)]])
+    return [3 if rng.random() < 0.95 else rng.choice([2, 4]), g_u(rng, 4), recs]
+
+
+def run_vmask(v, exc_code):
+    return run_payload(obj_vmask, lambda o: c_vmask_d(vmask_of_obj(o)), v, {}, {}, wf_vmask(v), exc_code)
